@@ -37,6 +37,11 @@ inductive Ev
   | retErr (id : Int)            -- returnError: error event + inFlight.Done
   | retSucc (id : Int)           -- returnSuccesses: success event + inFlight.Done
   | seq (id : Int)               -- partition producer stamped a sequence number
+  | stamp (id : Int) (epoch seq : Int)   -- partition producer stamped (epoch, sequence) on the message (carried by `seq` events)
+  | setStamp (epoch firstSeq : Int)      -- a produce set about to go on the wire: the stamp its batch carries
+  | sent (id : Int) (idx : Int)          -- … and the idx-th message of that batch
+  | sentEnd                              -- end of the produce set
+  | reentry (id : Int) (batch : Bool)    -- the message re-entered through retryBatch (true) or retryMessage (false)
   | waited                       -- shutdown: inFlight.Wait returned
   | close                        -- shutdown: output channels are closed
   | other                        -- events that do not concern the accounting
@@ -56,6 +61,10 @@ structure St where
   iceptLog  : List Int := []
   passLog   : List Int := []
   seqLog    : List Int := []
+  msgStamp  : List (Int × Int × Int) := []   -- id ↦ (epoch, sequence) given by the partition producer
+  lastSent  : List (Int × Int × Int) := []   -- id ↦ (epoch, sequence) under which it last went on the wire
+  viaBatch  : List Int := []                 -- ids whose latest re-entry was a whole-batch resend (retryBatch)
+  curStamp  : Option (Int × Int) := none     -- stamp of the produce set currently being reported
   shutdownStarted : Bool := false
   shutdownSeen    : Bool := false
   waited    : Bool := false
@@ -65,6 +74,14 @@ structure St where
 def init (cfg : Cfg) : St := { cfg := cfg }
 
 def retriesOf (s : St) (id : Int) : Nat := s.retryLog.count id
+
+def lookup3 (l : List (Int × Int × Int)) (id : Int) : Option (Int × Int) :=
+  match l.find? (fun x => x.1 = id) with
+  | some x => some x.2
+  | none => none
+
+def insert3 (l : List (Int × Int × Int)) (id : Int) (v : Int × Int) : List (Int × Int × Int) :=
+  (id, v.1, v.2) :: l.filter (fun x => x.1 ≠ id)
 
 def step (s : St) : Ev → Except String St
   | .accept id =>
@@ -129,6 +146,27 @@ def step (s : St) : Ev → Except String St
     else if s.retryLog.count id ≠ 0 then .error "seq: sequence stamped on a retry"
     else if s.seqLog.count id ≠ 0 then .error "seq: sequence stamped twice"
     else .ok { s with seqLog := id :: s.seqLog }
+  | .stamp id e q => .ok { s with msgStamp := insert3 s.msgStamp id (e, q) }
+  | .setStamp e f => .ok { s with curStamp := some (e, f) }
+  | .sentEnd => .ok { s with curStamp := none }
+  | .reentry id b =>
+    if b then .ok { s with viaBatch := id :: s.viaBatch.filter (· ≠ id) }
+    else .ok { s with viaBatch := s.viaBatch.filter (· ≠ id) }
+  | .sent id idx =>
+    match s.curStamp with
+    | none => .ok s                      -- not an idempotent batch: no stamp to check
+    | some (e, f) =>
+      if id ≤ 0 then .ok s
+      else match lookup3 s.msgStamp id with
+        | none => .error "sent: idempotent batch carries a message that was never given a sequence number"
+        | some (me, _) =>
+          if e < me then .error "sent: batch epoch is older than the stamp of one of its messages"
+          else match lookup3 s.lastSent id with
+            | some prev =>
+              if id ∈ s.viaBatch ∧ prev ≠ (e, f + idx) then
+                .error "sent: a whole-batch resend (retryBatch) went out under a different (epoch, sequence) than before"
+              else .ok { s with lastSent := insert3 s.lastSent id (e, f + idx) }
+            | none => .ok { s with lastSent := insert3 s.lastSent id (e, f + idx) }
   | .waited =>
     if ¬ s.shutdownStarted then .error "waited: no shutdown"
     else if s.wg ≠ 0 then .error "waited: WaitGroup counter not zero"
